@@ -75,8 +75,13 @@ def run_m6a(rng, tier, case):
     if MDs > 1 and not ((Fs == 0) ^ (Rs == 0)):
         Rs, Fs = (0, 2)
     sc = gen.pick(rng, [0., 0., 1.])
-    prof = gen.pick(rng, [None, None, None, ([1., 2.], [3.]), ([1.], None), ([2.], [2.])])
+    prof = gen.pick(rng, [None, None, None, ([1., 2.], [3.]), ([1.], None), ([2.], [2.]), ([2.5, 3.5], [1., 3.], 1.5), ([2.5, 3.5], [1., 3.], 1.5)])
+    ramp_in = None
     if prof:        # profile bounds are rates in main units: keep them below the minimum capacity (4 per step) like a real ramp-up
+        if len(prof) == 3:
+            # with a ramp limit of 1.5 per step: 3.5 -> 4 (first normal step) and 4 -> 3 (entering the shutdown profile) respect it, the steps INSIDE the
+            # profiles (0 -> 2.5, 3 -> 1 -> 0) exceed it - profiles take precedence where given, so the admissible patterns are unchanged
+            ramp_in = prof[2] / stepf
         prof = ([v / stepf for v in prof[0]], None if prof[1] is None else [v / stepf for v in prof[1]])
     half = rng.random() < 0.15      # durations of 1.5 / 2.5 steps: ceil conversion
     chp = rng.random() < 0.3
@@ -88,11 +93,13 @@ def run_m6a(rng, tier, case):
         k = len(s_)
         if sd_:
             kw.update(shutdown_ramp_lower_bounds=list(sd_), shutdown_ramp_upper_bounds=list(sd_)); m = len(sd_)
+        if ramp_in is not None:
+            kw.update(ramp=ramp_in)
         if Rs > 0:
             Rs, Fs = 0, max(Fs, 1)      # keep the initial state clear of a start ramp in progress
     MR_in = (MRs - 0.5 if (half and MRs >= 2) else MRs) * stepf
     MD_in = (MDs - 0.5 if (half and MDs >= 2) else MDs) * stepf
-    params = dict(freq=freq, unit=unit, min_runtime_steps=MRs, min_downtime_steps=MDs, running_steps=Rs, off_steps=Fs, start_costs=sc, profiles=prof, half_steps=half, chp=chp, T=T)
+    params = dict(freq=freq, unit=unit, min_runtime_steps=MRs, min_downtime_steps=MDs, running_steps=Rs, off_steps=Fs, start_costs=sc, profiles=prof, ramp=ramp_in, half_steps=half, chp=chp, T=T)
     case.key = env.spec_key(params); case.sample = params; case.spec = params
     case.feature('m6a', 'freq:%s/%s' % (freq, unit), 'profiles' if prof else 'no_profiles', 'chp' if chp else 'plant')
     with attach.recording() as rec, env.quiet():
